@@ -9,6 +9,7 @@ use dryoc::classic::crypto_onetimeauth::*;
 use dryoc::classic::crypto_shorthash::crypto_shorthash;
 use dryoc::classic::crypto_sign::{crypto_sign_final_create, crypto_sign_final_verify, crypto_sign_init, crypto_sign_update};
 
+use crate::polymath;
 use crate::so;
 use crate::util::*;
 
@@ -128,11 +129,175 @@ fn increment(i: &Input) -> Outcome {
     eq("sodium_increment", &want, &got2)
 }
 
+// ---- object API of the generic hash, const-generic key / digest lengths ----
+
+fn gh_object<const K: usize, const O: usize>(key: &[u8], keyed: bool, m: &[u8], ps: &[&[u8]]) -> Outcome {
+    use dryoc::generichash::GenericHash;
+    let karr: [u8; K] = match key.try_into() {
+        Ok(k) => k,
+        Err(_) => panic!("{} key must be {} bytes", HARNESS, K),
+    };
+    let kopt: Option<&[u8; K]> = if keyed { Some(&karr) } else { None };
+    let want = match so::generichash(O, m, if keyed { key } else { &[] }) {
+        Some(w) => w,
+        None => panic!("{} libsodium rejects outlen {} keylen {}", HARNESS, O, K),
+    };
+    let what = format!("GenericHash::<{}, {}>", K, O);
+
+    // incremental: new / update.. / finalize
+    let mut h = must_ok(GenericHash::<K, O>::new(kopt), &format!("{}::new", what))?;
+    for p in ps {
+        h.update(*p);
+    }
+    let out: Vec<u8> = must_ok(h.finalize_to_vec(), &format!("{}::finalize", what))?;
+    eq(
+        &format!("{}::new/update/finalize ({}), pieces {}", what, if keyed { "keyed" } else { "no key" }, desc(ps)),
+        &want,
+        &out,
+    )?;
+    let mut h = must_ok(GenericHash::<K, O>::new(kopt), &format!("{}::new", what))?;
+    for p in ps {
+        h.update(*p);
+    }
+    let out2: [u8; O] = must_ok(h.finalize(), &format!("{}::finalize (array)", what))?;
+    eq(&format!("{}::finalize into an array", what), &want, &out2)?;
+
+    // one-shot
+    let one: Vec<u8> = must_ok(GenericHash::<K, O>::hash_to_vec(&m.to_vec(), kopt), &format!("{}::hash", what))?;
+    eq(&format!("{}::hash (one-shot)", what), &want, &one)
+}
+
+/// (key length, digest length) pairs the object API is instantiated for.
+pub const GH_OBJECT_PAIRS: &[(usize, usize)] = &[
+    (16, 64),
+    (64, 32),
+    (32, 16),
+    (32, 64),
+    (32, 32),
+    (64, 64),
+    (16, 16),
+    (17, 33),
+    (33, 17),
+    (64, 16),
+    (48, 24),
+];
+
+/// klen, outlen (one of GH_OBJECT_PAIRS), key, keyed (0/1), m, optional cuts
+fn generichash_object(i: &Input) -> Outcome {
+    let (klen, outlen) = (i.num("klen") as usize, i.num("outlen") as usize);
+    let (key, keyed, m) = (i.get("key"), i.num("keyed") != 0, i.get("m"));
+    let ps = if i.has("cuts") { pieces(m, i.get("cuts")) } else { vec![m] };
+    match (klen, outlen) {
+        (16, 64) => gh_object::<16, 64>(key, keyed, m, &ps),
+        (64, 32) => gh_object::<64, 32>(key, keyed, m, &ps),
+        (32, 16) => gh_object::<32, 16>(key, keyed, m, &ps),
+        (32, 64) => gh_object::<32, 64>(key, keyed, m, &ps),
+        (32, 32) => gh_object::<32, 32>(key, keyed, m, &ps),
+        (64, 64) => gh_object::<64, 64>(key, keyed, m, &ps),
+        (16, 16) => gh_object::<16, 16>(key, keyed, m, &ps),
+        (17, 33) => gh_object::<17, 33>(key, keyed, m, &ps),
+        (33, 17) => gh_object::<33, 17>(key, keyed, m, &ps),
+        (64, 16) => gh_object::<64, 16>(key, keyed, m, &ps),
+        (48, 24) => gh_object::<48, 24>(key, keyed, m, &ps),
+        _ => panic!("{} (klen, outlen) = ({}, {}) is not instantiated", HARNESS, klen, outlen),
+    }
+}
+
+fn run_gh_object(ctx: &mut Ctx, case: &str, m: &[u8], cut: Option<&[u8]>) -> Search {
+    for (klen, outlen) in GH_OBJECT_PAIRS {
+        let key = ctx.rng.bytes(*klen);
+        for keyed in [1u64, 0] {
+            let mut inp = Input::new()
+                .u("klen", *klen as u64)
+                .u("outlen", *outlen as u64)
+                .b("key", &key)
+                .u("keyed", keyed)
+                .b("m", m);
+            if let Some(c) = cut {
+                inp = inp.b("cuts", c);
+            }
+            ctx.run(case, inp)?;
+        }
+    }
+    Ok(())
+}
+
+// ---- object-API MAC verification: exactly the authenticator is accepted ----
+
+/// k, x, len, fill: the candidate is libsodium's MAC truncated / extended with
+/// `fill` bytes to `len` bytes, held in a Vec.  It is the authenticator only
+/// when `len` is the MAC length; optional `flip` = bit index to invert first.
+fn mac_verify_object(i: &Input) -> Outcome {
+    use dryoc::auth::Auth;
+    use dryoc::onetimeauth::OnetimeAuth;
+    let (k, x) = (i.arr::<32>("k"), i.get("x").to_vec());
+    let (len, fill) = (i.num("len") as usize, i.num("fill") as u8);
+    let flip = if i.has("flip") { Some(i.num("flip") as usize) } else { None };
+    let cand = |good: &[u8]| -> (Vec<u8>, bool) {
+        let mut c = good.to_vec();
+        c.resize(len, fill);
+        if let Some(b) = flip {
+            if !c.is_empty() {
+                let b = b % (c.len() * 8);
+                c[b / 8] ^= 1 << (b % 8);
+            }
+        }
+        let is_mac = c == good;
+        (c, is_mac)
+    };
+    let split = x.len() / 2;
+    let say = |what: &str, c: &[u8], accept: bool, got: bool| -> Outcome {
+        if accept == got {
+            Ok(())
+        } else {
+            fail(
+                if accept { "Ok" } else { "Err" },
+                if got { "Ok" } else { "Err" },
+                format!(
+                    "{}: candidate of {} bytes ({}) {}",
+                    what,
+                    c.len(),
+                    hex(c),
+                    if accept { "is the authenticator" } else { "is not the authenticator" }
+                ),
+            )
+        }
+    };
+
+    let (c, is_mac) = cand(&so::auth(&x, &k));
+    let r = Auth::compute_and_verify(&c, dryoc::auth::Key::from(k), &x);
+    say("Auth::compute_and_verify", &c, is_mac, r.is_ok())?;
+    let mut a = Auth::new(dryoc::auth::Key::from(k));
+    a.update(&x[..split].to_vec());
+    a.update(&x[split..].to_vec());
+    say("Auth::new/update/verify", &c, is_mac, a.verify(&c).is_ok())?;
+    let mut a = Auth::new(dryoc::auth::Key::from(k));
+    a.update(&x);
+    say("Auth::new/update/verify (&[u8] code)", &c, is_mac, a.verify(&c.as_slice()).is_ok())?;
+
+    let (c, is_mac) = cand(&so::onetimeauth(&x, &k));
+    let r = OnetimeAuth::compute_and_verify(&c, dryoc::onetimeauth::Key::from(k), &x);
+    say("OnetimeAuth::compute_and_verify", &c, is_mac, r.is_ok())?;
+    let mut a = OnetimeAuth::new(dryoc::onetimeauth::Key::from(k));
+    a.update(&x[..split].to_vec());
+    a.update(&x[split..].to_vec());
+    say("OnetimeAuth::new/update/verify", &c, is_mac, a.verify(&c).is_ok())?;
+    let mut a = OnetimeAuth::new(dryoc::onetimeauth::Key::from(k));
+    a.update(&x);
+    say("OnetimeAuth::new/update/verify (&[u8] code)", &c, is_mac, a.verify(&c.as_slice()).is_ok())
+}
+
 pub const C07: Registry = &[
     ("generichash", generichash),
+    ("generichash_object", generichash_object),
     ("sha512", sha512),
     ("auth", auth),
+    ("auth_incremental", auth_split),
     ("onetimeauth", onetimeauth),
+    ("onetimeauth_incremental", onetimeauth_split),
+    ("onetimeauth_final_accumulator", onetimeauth),
+    ("onetimeauth_pending_carry", onetimeauth),
+    ("mac_verify_object", mac_verify_object),
     ("onetimeauth_adversarial", onetimeauth),
     ("shorthash", shorthash),
     ("hsalsa20", hsalsa20),
@@ -219,6 +384,104 @@ pub fn c07(ctx: &mut Ctx) -> Search {
             ctx.run("auth", Input::new().b("k", &[0xffu8; 32]).b("m", &ff))?;
             ctx.run("sha512", Input::new().b("m", &ff))?;
             ctx.run("shorthash", Input::new().b("k", &[0xffu8; 16]).b("m", &ff))?;
+        }
+    }
+
+    // ---- object API of the generic hash: key length != digest length, digest
+    //      length != 32, keyed and not, one update and two
+    for len in [0usize, 1, 3, 64, 127, 128, 129, 257, 300] {
+        let m = ctx.rng.bytes(len);
+        run_gh_object(ctx, "generichash_object", &m, None)?;
+        let c = ctx.rng.below(len + 1);
+        run_gh_object(ctx, "generichash_object", &m, Some(&cuts(&[c])))?;
+    }
+
+    // ---- incremental MACs (classic init/update/final and the Auth /
+    //      OnetimeAuth objects) against libsodium's one-shot value: every
+    //      two-part split a+b
+    let maxsplit = if t { 140 } else { 80 };
+    for len in 0..=maxsplit {
+        let m = ctx.rng.bytes(len);
+        let k = ctx.rng.arr::<32>();
+        for c in 0..=len {
+            let inp = Input::new().b("k", &k).b("m", &m).b("cuts", &cuts(&[c]));
+            ctx.run("onetimeauth_incremental", inp.clone())?;
+            ctx.run("auth_incremental", inp)?;
+        }
+        // three parts, the middle one completing a pending block exactly
+        if len >= 16 {
+            let a = 1 + ctx.rng.below(15);
+            for c3 in [&[a, 16][..], &[a, 16, len][..], &[0, a, 16][..]] {
+                let inp = Input::new().b("k", &k).b("m", &m).b("cuts", &cuts(c3));
+                ctx.run("onetimeauth_incremental", inp.clone())?;
+                ctx.run("auth_incremental", inp)?;
+            }
+        }
+    }
+
+    // ---- object-API verification accepts exactly the authenticator: codes
+    //      that are too short, too long (right prefix), or differ in one bit
+    for len in 0..=70u64 {
+        let x = ctx.rng.bytes((len % 9) as usize);
+        let k = ctx.rng.arr::<32>();
+        for fill in [0u64, 0xa5] {
+            ctx.run("mac_verify_object", Input::new().b("k", &k).b("x", &x).u("len", len).u("fill", fill))?;
+        }
+        if len == 16 || len == 32 {
+            for flip in [0u64, 7, 64, 127, 128, 255] {
+                ctx.run(
+                    "mac_verify_object",
+                    Input::new().b("k", &k).b("x", &x).u("len", len).u("fill", 0).u("flip", flip),
+                )?;
+            }
+        }
+    }
+
+    // ---- Poly1305: messages constructed so that the final accumulator is
+    //      p-2 .. p+4 = 2^130-1 .. (the conditional subtraction of p and its
+    //      carry chain; random messages get there with probability 2^-128)
+    let mut fkeys: Vec<[u8; 32]> = (0..if t { 24 } else { 4 }).map(|_| ctx.rng.arr::<32>()).collect();
+    fkeys.extend(poly_keys.iter().copied());
+    for k in &fkeys {
+        for (off, _) in polymath::FINAL_TARGETS {
+            for (nprefix, last_len) in [(0usize, 16usize), (1, 16), (2, 16), (5, 16), (1, 15)] {
+                if last_len == 15 && !t && *off != 0 && *off != 4 {
+                    continue;
+                }
+                if let Some(m) = polymath::message_with_final_accumulator(&mut ctx.rng, k, *off, nprefix, last_len) {
+                    ctx.run("onetimeauth_final_accumulator", Input::new().b("k", k).b("m", &m))?;
+                    let c = 16 * nprefix;
+                    ctx.run(
+                        "onetimeauth_incremental",
+                        Input::new().b("k", k).b("m", &m).b("cuts", &cuts(&[c])),
+                    )?;
+                    if *off >= 5 && last_len == 16 {
+                        // h = 2^130 + j: a carry into the all-ones middle limb is
+                        // pending here; continue the message past that block
+                        let mut m2 = m.clone();
+                        let tl = 1 + ctx.rng.below(40);
+                        let tail = ctx.rng.bytes(tl);
+                        m2.extend_from_slice(&tail);
+                        ctx.run("onetimeauth_pending_carry", Input::new().b("k", k).b("m", &m2))?;
+                        ctx.run(
+                            "onetimeauth_incremental",
+                            Input::new().b("k", k).b("m", &m2).b("cuts", &cuts(&[m.len()])),
+                        )?;
+                    }
+                }
+            }
+        }
+    }
+    // ---- Poly1305: a carry pending in the middle limb when the last full
+    //      block has been absorbed (2^-44 for random data)
+    for r in [1u64, 3, 5, 7, 0x0fff_ffff, 0x0800_0001, 1 + 2 * ctx.rng.below(1 << 27) as u64] {
+        for nprefix in 0..4usize {
+            for tail_len in [0usize, 1, 15, 16, 20] {
+                let tail = ctx.rng.bytes(tail_len);
+                if let Some((k, m, _)) = polymath::message_with_pending_carry(&mut ctx.rng, r, nprefix, &tail) {
+                    ctx.run("onetimeauth_pending_carry", Input::new().b("k", &k).b("m", &m))?;
+                }
+            }
         }
     }
 
@@ -313,10 +576,33 @@ fn auth_split(i: &Input) -> Outcome {
     }
     let mut out = [0u8; 32];
     crypto_auth_final(st, &mut out);
-    eq(&format!("incremental crypto_auth, pieces {}", desc(&ps)), &so::auth(m, &k), &out)?;
+    let want = so::auth(m, &k);
+    eq(&format!("incremental crypto_auth, pieces {}", desc(&ps)), &want, &out)?;
     let mut one = [0u8; 32];
     crypto_auth(&mut one, m, &k);
-    eq("incremental vs one-shot crypto_auth", &one, &out)
+    eq("incremental vs one-shot crypto_auth", &one, &out)?;
+
+    // object API
+    use dryoc::auth::{Auth, Key};
+    let feed = || {
+        let mut a = Auth::new(Key::from(k));
+        for p in &ps {
+            a.update(&p.to_vec());
+        }
+        a
+    };
+    eq(
+        &format!("Auth::new/update/finalize, pieces {}", desc(&ps)),
+        &want,
+        &feed().finalize_to_vec(),
+    )?;
+    must_ok(
+        feed().verify(&want),
+        &format!("Auth::new/update/verify(libsodium mac), pieces {}", desc(&ps)),
+    )?;
+    let mut bad = want;
+    bad[m.len() % 32] ^= 0x04;
+    must_err(feed().verify(&bad), "Auth::new/update/verify (one bit of the mac flipped)")
 }
 
 fn onetimeauth_split(i: &Input) -> Outcome {
@@ -328,14 +614,37 @@ fn onetimeauth_split(i: &Input) -> Outcome {
     }
     let mut out = [0u8; 16];
     crypto_onetimeauth_final(st, &mut out);
+    let want = so::onetimeauth(m, &k);
     eq(
         &format!("incremental crypto_onetimeauth, pieces {}", desc(&ps)),
-        &so::onetimeauth(m, &k),
+        &want,
         &out,
     )?;
     let mut one = [0u8; 16];
     crypto_onetimeauth(&mut one, m, &k);
-    eq("incremental vs one-shot crypto_onetimeauth", &one, &out)
+    eq("incremental vs one-shot crypto_onetimeauth", &one, &out)?;
+
+    // object API
+    use dryoc::onetimeauth::{Key, OnetimeAuth};
+    let feed = || {
+        let mut a = OnetimeAuth::new(Key::from(k));
+        for p in &ps {
+            a.update(&p.to_vec());
+        }
+        a
+    };
+    eq(
+        &format!("OnetimeAuth::new/update/finalize, pieces {}", desc(&ps)),
+        &want,
+        &feed().finalize_to_vec(),
+    )?;
+    must_ok(
+        feed().verify(&want),
+        &format!("OnetimeAuth::new/update/verify(libsodium mac), pieces {}", desc(&ps)),
+    )?;
+    let mut bad = want;
+    bad[m.len() % 16] ^= 0x04;
+    must_err(feed().verify(&bad), "OnetimeAuth::new/update/verify (one bit of the mac flipped)")
 }
 
 fn sha512_split(i: &Input) -> Outcome {
@@ -378,8 +687,12 @@ fn sign_ph_split(i: &Input) -> Outcome {
 
 pub const C08: Registry = &[
     ("generichash_split", generichash_split),
+    ("generichash_object_split", generichash_object),
     ("auth_split", auth_split),
     ("onetimeauth_split", onetimeauth_split),
+    ("onetimeauth_split_pending_carry", onetimeauth_split),
+    ("onetimeauth_split_small_r", onetimeauth_split),
+    ("onetimeauth_split_final_accumulator", onetimeauth_split),
     ("sha512_split", sha512_split),
     ("sign_ph_split", sign_ph_split),
 ];
@@ -445,6 +758,126 @@ pub fn c08(ctx: &mut Ctx) -> Search {
         // empty updates everywhere
         run_all_split(ctx, &m, &cuts(&[0, 0, 0, len, len]), &gh, &k, &seed, true)?;
     }
+    // object API of the generic hash (key length != digest length): splits
+    // around the block boundary, single update, empty pieces
+    for len in [0usize, 1, 64, 128, 129, 200] {
+        let m = ctx.rng.bytes(len);
+        let marks: Vec<usize> = [0usize, 1, 64, 127, 128, 129, len].into_iter().filter(|p| *p <= len).collect();
+        for a in &marks {
+            run_gh_object(ctx, "generichash_object_split", &m, Some(&cuts(&[*a])))?;
+        }
+        run_gh_object(ctx, "generichash_object_split", &m, None)?;
+        run_gh_object(ctx, "generichash_object_split", &m, Some(&cuts(&[0, len / 2, len])))?;
+    }
+
+    // Poly1305 with a carry pending in the middle limb right at the end of a
+    // block (constructed; 2^-44 for random data): every split position, so
+    // that an update call / a completed pending buffer ends exactly there
+    let rs: Vec<u64> = if t {
+        let mut v = vec![1u64, 3, 5, 7, 9, 0x0fff_ffff, 0x0800_0001];
+        for _ in 0..12 {
+            v.push(1 + 2 * ctx.rng.below(1 << 27) as u64);
+        }
+        v
+    } else {
+        vec![1, 3, 0x0fff_ffff, 1 + 2 * ctx.rng.below(1 << 27) as u64]
+    };
+    for r in rs {
+        for nprefix in [0usize, 1, 2] {
+            for tail_len in [0usize, 7, 20, 33] {
+                let tail = ctx.rng.bytes(tail_len);
+                let (k, m, end) = match polymath::message_with_pending_carry(&mut ctx.rng, r, nprefix, &tail) {
+                    Some(x) => x,
+                    None => continue,
+                };
+                for c in 0..=m.len() {
+                    ctx.run(
+                        "onetimeauth_split_pending_carry",
+                        Input::new().b("k", &k).b("m", &m).b("cuts", &cuts(&[c])),
+                    )?;
+                }
+                // three parts: the middle one ends at the critical block
+                for a in [0usize, 1, end.saturating_sub(17), end.saturating_sub(16), end.saturating_sub(1)] {
+                    if a <= end {
+                        ctx.run(
+                            "onetimeauth_split_pending_carry",
+                            Input::new().b("k", &k).b("m", &m).b("cuts", &cuts(&[a, end])),
+                        )?;
+                    }
+                }
+            }
+        }
+    }
+    // the same state for arbitrary r: a block after which the polynomial is
+    // congruent to 5..9 leaves h = 2^130 + j, i.e. low limb j with the carry
+    // into the (all-ones) middle limb pending
+    for _ in 0..(if t { 10 } else { 3 }) {
+        let k = ctx.rng.arr::<32>();
+        for off in [5i64, 6, 9] {
+            for nprefix in [1usize, 2] {
+                let tail_len = [0usize, 7, 20, 33][ctx.rng.below(4)];
+                let mut m = match polymath::message_with_final_accumulator(&mut ctx.rng, &k, off, nprefix, 16) {
+                    Some(m) => m,
+                    None => continue,
+                };
+                let end = m.len();
+                let tail = ctx.rng.bytes(tail_len);
+                m.extend_from_slice(&tail);
+                for c in 0..=m.len() {
+                    ctx.run(
+                        "onetimeauth_split_pending_carry",
+                        Input::new().b("k", &k).b("m", &m).b("cuts", &cuts(&[c])),
+                    )?;
+                }
+                ctx.run(
+                    "onetimeauth_split_pending_carry",
+                    Input::new().b("k", &k).b("m", &m).b("cuts", &cuts(&[1, end])),
+                )?;
+            }
+        }
+    }
+    // r = 1, r small, r = clamped maximum; messages of 0xff blocks (largest
+    // limb values) with one lower byte; every split position
+    for kb in [&[1u8][..], &[2], &[3], &[0xff, 0xff, 0xff, 0x0f], &[0xff; 16], &[0, 0, 0, 0, 0xfc]] {
+        let mut k = [0u8; 32];
+        k[..kb.len()].copy_from_slice(kb);
+        ctx.rng.fill(&mut k[16..]);
+        for len in [16usize, 32, 47, 48, 52, 64, 80] {
+            for variant in 0..3 {
+                let mut m = vec![0xffu8; len];
+                match variant {
+                    1 => m[len / 2] = 0xfa,
+                    2 => {
+                        for b in m.iter_mut().skip(16).take(16) {
+                            *b = 0;
+                        }
+                    }
+                    _ => {}
+                }
+                for c in 0..=len {
+                    ctx.run(
+                        "onetimeauth_split_small_r",
+                        Input::new().b("k", &k).b("m", &m).b("cuts", &cuts(&[c])),
+                    )?;
+                }
+            }
+        }
+    }
+    // final accumulator p-2 .. 2^130-1 reached through every split
+    for _ in 0..(if t { 8 } else { 2 }) {
+        let k = ctx.rng.arr::<32>();
+        for (off, _) in polymath::FINAL_TARGETS {
+            if let Some(m) = polymath::message_with_final_accumulator(&mut ctx.rng, &k, *off, 2, 16) {
+                for c in 0..=m.len() {
+                    ctx.run(
+                        "onetimeauth_split_final_accumulator",
+                        Input::new().b("k", &k).b("m", &m).b("cuts", &cuts(&[c])),
+                    )?;
+                }
+            }
+        }
+    }
+
     // random multi-way splits
     let n = if t { 1000 } else { 100 };
     for _ in 0..n {
